@@ -12,6 +12,7 @@ import (
 	"io"
 	"math/rand"
 	"os"
+	"time"
 
 	"verifharness/internal/hc"
 )
@@ -64,7 +65,7 @@ func main() {
 		}
 		for i, c := range f.Cases {
 			c.ID = i
-			fam.Exec(c)
+			execGuard(fam, c)
 			for _, t := range c.Tags {
 				hc.Count(f.Dist, t)
 			}
@@ -77,7 +78,7 @@ func main() {
 		f.Dist = map[string]int{}
 		for _, c := range f.Cases {
 			c.Outs, c.Viol, c.Tags, c.Known = nil, nil, nil, nil
-			fam.Exec(c)
+			execGuard(fam, c)
 			for _, t := range c.Tags {
 				hc.Count(f.Dist, t)
 			}
@@ -94,6 +95,23 @@ func main() {
 	default:
 		fmt.Fprintln(os.Stderr, "unknown mode", os.Args[2])
 		os.Exit(2)
+	}
+}
+
+// execGuard runs one case under a watchdog: a library change that makes an operation block for ever must show as a
+// failed case (and the check go on), not as a check that hangs until its own timeout.
+func execGuard(fam Family, c *hc.Case) {
+	done := make(chan struct{})
+	go func() {
+		defer close(done)
+		fam.Exec(c)
+	}()
+	select {
+	case <-done:
+	case <-time.After(90 * time.Second):
+		c.Outs = nil
+		c.Viol = append(c.Viol, hc.Violation{Clause: "an operation of the library neither returned nor reached the harness's next hand-over point within 90 s (deadlock, lost wake-up or a wait on the wall clock)", Detail: "the case was abandoned; its goroutines are left behind", AtOp: 0})
+		c.Tags = append(c.Tags, "harness:hung")
 	}
 }
 
